@@ -9,6 +9,7 @@ import Jence.Spec.Rules
 import Jence.Spec.Oracle
 import Jence.Lemmas.History
 import Jence.Lemmas.NVal
+import Jence.Lemmas.ForcedMateDec
 import Jence.Lemmas.EvalMirror
 import Jence.Model.Uci
 open Jence
@@ -187,6 +188,18 @@ def cmdNval (rest : String) : List String :=
   | .ok (g, rep), some d => [toString (nVal chessRules rep.pre negaFuel g d 0)]
   | _, _ => ["!none"]
 
+/-- `oracle forced <fen> ; <n>`: the forced-mate predicates of T11.2 / T11.3 (`MatesIn` / `MatedIn` over the engine's own
+    generate / make / check test), decided by `matesInB` / `matedInB` (`Lemmas/ForcedMateDec.forced_dec`):
+    row k of `matesIn` is `MatesIn (2k − 1)`, row k of `matedIn` is `MatedIn (2k)`, k = 1..n -/
+def cmdForced (rest : String) : List String :=
+  let parts := semis rest
+  match parseFen (parts.headD ""), (parts.getD 1 "").trimAscii.toString.toNat? with
+  | .ok g, some n =>
+    [s!"matesIn {(List.range n).map fun k => if matesInB chessRules (2 * (k + 1) - 1) g then 1 else 0}",
+     s!"matedIn {(List.range n).map fun k => if matedInB chessRules (2 * (k + 1)) g then 1 else 0}",
+     s!"mated {if matedB chessRules g then 1 else 0}"]
+  | _, _ => ["!none"]
+
 /-- `mirror <dump>`: the colour mirror of T16.3 (`Lemmas/EvalMirror.mirror`), as a dump -/
 def cmdMirror (rest : String) : List String :=
   match parseDump (words rest) with
@@ -338,6 +351,7 @@ def handle (line : String) (tt : TT) : List String × TT :=
      | "attackall" :: s :: r => cmdAttackAll ((parseNat? s).getD 1).toUInt64 ((r.head?.bind parseNat?).getD 1) true
      | "wf" :: _ => cmdWf ((rest.drop 2).trimAscii.toString)
      | "nval" :: _ => cmdNval ((rest.drop 4).trimAscii.toString)
+     | "forced" :: _ => cmdForced ((rest.drop 6).trimAscii.toString)
      | "mirror" :: _ => cmdMirror ((rest.drop 6).trimAscii.toString)
      | _ => Spec.oracle rest, tt)
   | _ => (["!unknown"], tt)
